@@ -15,7 +15,7 @@ SHRINK = None
 
 def gen(rng, i, tier):
     n = int(rng.integers(3, 60 if tier == "quick" else 100))
-    x, gk = grid(rng, n=n, zero=bool(rng.random() < 0.55), extra=0.15, extra_kinds=["crossing", "negative"])
+    x, gk = grid(rng, n=n, zero=bool(rng.random() < 0.55), extra=0.2, extra_kinds=["crossing", "negative", "tiny"])
     y, dk = data(rng, x)
     dy = unc(rng, x)
     xo, _ = grid(rng, n=int(rng.integers(1, 12)) + 1)
